@@ -860,7 +860,11 @@ def leaf_kind_grid(ctx):
     from octave_mcp.core.parser import parse
     from octave_mcp.core.sealer import seal_document, verify_seal
     pairs = [(404, "404"), ("404", 404), (True, "true"), ("true", True), (False, "false"), (None, "null"), ("null", None),
-             (2.5, "2.5"), ("2.5", 2.5), (1, 1.0), (1.0, 1), (0, False), (True, 1), ("x", ["x"])]
+             (2.5, "2.5"), ("2.5", 2.5), (1, 1.0), (1.0, 1), (0, False), (True, 1), ("x", ["x"]),
+             # neighbouring doubles: the canonical text must tell apart any two distinct floats (repr is injective)
+             (0.30000000000000004, 0.3000000000000001), (0.1 + 0.2, 0.3), (1234567890123456.0, 1234567890123459.0),
+             (1e16, 1.0000000000000002e16), (2.0 ** 53, 2.0 ** 53 + 2), (5e-324, 1e-323), (1.7976931348623157e308, 1.7976931348623155e308),
+             (-0.0, 0.0), (123456789012345678, 123456789012345679), (10 ** 30, 10 ** 30 + 1)]
 
     def build(pos, key, v):
         if pos == "assign":
@@ -911,7 +915,7 @@ def leaf_kind_grid(ctx):
                 ctx.hist("leaf_kind_grid", f"{pos}:{st_mem}/{st_txt}")
                 if st_mem != "INVALID":
                     ctx.property_failure(dict(case, status_in_memory=st_mem, sealed_text=t1, edited_text=t2),
-                                         f"leaf-kind grid: the kind of one leaf changed ({v1!r} -> {v2!r}) and the seal still reports {st_mem} in memory")
+                                         f"leaf-kind grid: the kind or value of one leaf changed ({v1!r} -> {v2!r}) and the seal still reports {st_mem} in memory")
                 elif t1 != t2 and st_txt != "INVALID":
                     ctx.property_failure(dict(case, status_after_text=st_txt, sealed_text=t1, edited_text=t2),
                                          f"leaf-kind grid: edited text differs from the sealed text and the seal reports {st_txt}")
